@@ -11,6 +11,7 @@ import (
 	"context"
 	"encoding/binary"
 	"fmt"
+	"strings"
 	"sync"
 	"testing/synctest"
 	"time"
@@ -547,6 +548,45 @@ func (w *World) CheckC06(when string) *world.Problem {
 	}
 	// (2) watermarks: monotone and never past a height whose blob the DA layer did not accept
 	hw, dw := m.VerifLastSubmittedHeaderHeight(), m.VerifLastSubmittedDataHeight()
+	// (2c) an acceptance the DA layer acknowledged to this process is recorded at once (before the next DA
+	// call or pause): otherwise the node counts accepted blocks as still waiting and submits them again.
+	// Calls made before the last restart are not judged (a crash may fall between acknowledgement and record).
+	lastRestart := -1
+	for _, rm := range w.RestartMarks {
+		if rm.CallIndex > lastRestart {
+			lastRestart = rm.CallIndex
+		}
+	}
+	for ci, c := range calls {
+		if ci < lastRestart || c.Op != "submit" || c.Stored == 0 || !(strings.HasPrefix(c.Result, "accept(") || strings.HasPrefix(c.Result, "prefix(")) {
+			continue
+		}
+		top, kind := uint64(0), ""
+		for i, bl := range c.Blobs {
+			if i >= c.Stored {
+				break
+			}
+			kind = kindOf(bl, w.P.Opts.Payload())
+			switch kind {
+			case "header":
+				var hp pb.SignedHeader
+				_ = proto.Unmarshal(bl, &hp)
+				sh := new(types.SignedHeader)
+				_ = sh.FromProto(&hp)
+				top = sh.Height()
+			case "data":
+				var sd types.SignedData
+				_ = sd.UnmarshalBinary(bl)
+				top = sd.Height()
+			}
+		}
+		if kind == "header" && hw < top {
+			return pr("acknowledged-not-recorded", "%s: the DA layer accepted and acknowledged headers up to %d (Submit call %d: %s), the header watermark is still %d", when, top, ci, c.Result, hw)
+		}
+		if kind == "data" && dw < top {
+			return pr("acknowledged-not-recorded", "%s: the DA layer accepted and acknowledged data up to height %d (Submit call %d: %s), the data watermark is still %d", when, top, ci, c.Result, dw)
+		}
+	}
 	ph, pd := w.PersistedWatermarks()
 	if hw < w.MaxHdrWM && hw < ph {
 		return pr("watermark-decreased", "%s: header watermark %d is below an earlier value %d", when, hw, w.MaxHdrWM)
